@@ -349,13 +349,16 @@ Definition import_message_signals (env : ienv) (st : istate) (mpos : nat) (dm : 
       do sigs' <- msg_insert (is_enums st0) (dm_size dm) sigs t start; Ok (st0, sigs') in
   match muxes with
   | [] =>
+      (* a multiplexed signal needs a multiplexor switch in its message *)
+      if existsb (fun p : Z * dsignal => ds_muxed (snd p)) isigs then Err "multiplexor switch is required" else
       fold_left (fun acc '(id, ds) =>
         do (st0, sigs) <- acc;
         do (s, st1) <- import_signal env st0 mpos msgid id ds;
         top_insert (st1, sigs) (s, []) (get_start_bit ds)) isigs (Ok (st, []))
   | [(mid, dmx)] =>
       (* one multiplexer: multiplexed signals, plus the plain signals lying between the switch and
-         the last multiplexed start, become its children *)
+         the last multiplexed start, become its children; the only switch cannot be multiplexed itself *)
+      if ds_muxed dmx then Err "multiplexor switch is required" else
       do r1 <- fold_left (fun acc '(id, ds) =>
                  do (st0, muxed, stds, last) <- acc;
                  if id =? mid then Ok (st0, muxed, stds, last) else
@@ -404,7 +407,10 @@ Definition import_message_signals (env : ienv) (st : istate) (mpos : nat) (dm : 
                                                           fl_one fl_zero fl_zero fl_zero EmptyString []) in
                  do (mt, st1) <- import_mux_signal env (fst ms) mpos msgid (dm_size dm) mid dmx (nth j groups []);
                  match lookup key_eqb (msgid, ds_name dmx) (ie_ext_muxes env) with
-                 | None => do ms' <- top_insert (st1, snd ms) mt (get_start_bit dmx); Ok (ms', groups)
+                 | None =>
+                     (* a multiplexed multiplexor has to name its own multiplexor *)
+                     if ds_muxed dmx then Err "extended multiplexing is required" else
+                     do ms' <- top_insert (st1, snd ms) mt (get_start_bit dmx); Ok (ms', groups)
                  | Some em =>
                      match mux_idx (em_muxor em) with
                      | None => Err "multiplexor not found"
